@@ -65,6 +65,23 @@ CHECKS = {
         "block of the includer and extend 0-2 layouts, and 15 placements of return; the real library must render the same bytes "
         "around the call site, bind the same exec value and leak no variable or context.",
    design_ref="DESIGN.md §5 C09", note=EXEC_TRUST),
+ "C06": dict(
+   technique="TLA+ JetAccess (object table of a Go value catalogue; Resolve written from Go's selector rules: auto-dereference, "
+             "methods first, shallowest promoted field, key of the key type, in-range index) enumerated by TLC over all access paths; "
+             "every path evaluated by the real library on the mirrored Go values (mirror checked by reflection)",
+   text="TLC grows every access path up to the bound over 18 roots and a 50-step alphabet (a.b and a[\"b\"] spellings, calls, "
+        "indexes, slice bounds), checks that both spellings agree in the contract, and emits for each path the stored leaf, nil, or "
+        "error. The real library must render exactly the stored leaf (leaf texts are unique), nil for absent keys and nil maps, "
+        "and a returned error - never a panic, never another value - for everything else.",
+   design_ref="DESIGN.md §5 C06", note=NOTE_TRUST + " Go types cannot be created at run time: data graphs outside the catalogue are not explored; bytes of strings other than one are not indexed."),
+ "C17": dict(
+   technique="TLA+ JetAccess.IsSetPath / KeyPresent (exists and non-nil; key present) over the same enumerated access paths as C06; "
+             "the real isset evaluated in five forms per path (direct, with a second argument, inside if, piped, piped into a slot) "
+             "plus the two-value map lookup",
+   text="For every enumerated path, valid or invalid at any depth, the real isset must render exactly true/false as the contract "
+        "says and Execute must return nil (never fail, never panic); zero numbers, empty strings and false count as existing; "
+        "v, ok := m[k] must bind ok to key presence also when the stored value is nil.",
+   design_ref="DESIGN.md §5 C17", note=NOTE_TRUST),
  "C07": dict(
    technique="TLA+ JetExec interpreter machine model-checked by TLC over scoping program families (Gen_C07: wrapper paths x "
              "declare/rebind/shadow focals, loop-variable capture per ranger kind); every behaviour replayed on the real interpreter",
